@@ -1271,6 +1271,69 @@ theorem removeItem_spec (s : Store) (hd : CH) (n : Option Name) (hg : Good s.db)
           rw [hloops, hf', hb']
           rfl
 
+/-- cif_container_get_all_loops -/
+theorem allLoops_spec (s : Store) (h : CH) : (allLoops s h).1.db = s.db ∧ (allLoops s h).2 = specAllLoops (absS s.db) h := by
+  refine ⟨by unfold allLoops; rw [nestRO_db], ?_⟩
+  unfold allLoops specAllLoops
+  rw [nestRO_snd]
+  have hc : (absS s.db).containers.any (fun c => c.id == h.id) = s.db.hasContainer h.id := rfl
+  rw [hc]
+  cases s.db.hasContainer h.id with
+  | false => rfl
+  | true =>
+    simp only [Bool.not_true, Bool.false_eq_true, if_false]
+    rw [absS_filter_loops s.db (fun l => l.cid == h.id) _ (fun _ _ => rfl), List.map_map]
+    rfl
+
+/-- the caller's get_names over the handles cif_container_get_all_loops returned: the database is untouched and the answers are the
+    documented model's -/
+theorem foldNames_spec (d : Db) (hg : Good d) : ∀ (ls : List LH), (∀ l ∈ ls, l.validB d = true) →
+    ∀ (acc : Store × List (Option Str × Option (List Str))), acc.1.db = d →
+    (ls.foldl (fun (acc : Store × List (Option Str × Option (List Str))) l =>
+        match getNames acc.1 l with
+        | (s', .ok ns) => (s', acc.2 ++ [(l.category, some (ns.map (·.2)))])
+        | (s', .error _) => (s', acc.2 ++ [(l.category, none)])) acc).1.db = d ∧
+    (ls.foldl (fun (acc : Store × List (Option Str × Option (List Str))) l =>
+        match getNames acc.1 l with
+        | (s', .ok ns) => (s', acc.2 ++ [(l.category, some (ns.map (·.2)))])
+        | (s', .error _) => (s', acc.2 ++ [(l.category, none)])) acc).2 =
+      acc.2 ++ ls.map (fun l => match specGetNames (absS d) l with
+        | .ok ns => (l.category, some (ns.map (·.2)))
+        | .error _ => (l.category, none))
+  | [], _, acc, hdb => ⟨hdb, by simp⟩
+  | l :: ls, hv, acc, hdb => by
+    simp only [List.foldl_cons, List.map_cons]
+    have hvl := hv l List.mem_cons_self
+    have hsp := getNames_spec acc.1 l (by rw [hdb]; exact hg) (by rw [hdb]; exact hvl)
+    have hdb' : (getNames acc.1 l).1.db = d := by unfold getNames; rw [nestRO_db]; exact hdb
+    rw [hdb] at hsp
+    cases hr : getNames acc.1 l with
+    | mk s' r =>
+      rw [hr] at hsp hdb'
+      simp only [] at hsp hdb'
+      cases r with
+      | ok ns =>
+        have ih := foldNames_spec d hg ls (fun l' hl' => hv l' (List.mem_cons_of_mem _ hl')) (s', acc.2 ++ [(l.category, some (ns.map (·.2)))]) hdb'
+        simp only [] at ih ⊢
+        refine ⟨ih.1, ?_⟩
+        rw [ih.2, ← hsp.2, List.append_assoc]
+        rfl
+      | error c =>
+        have ih := foldNames_spec d hg ls (fun l' hl' => hv l' (List.mem_cons_of_mem _ hl')) (s', acc.2 ++ [(l.category, none)]) hdb'
+        simp only [] at ih ⊢
+        refine ⟨ih.1, ?_⟩
+        rw [ih.2, ← hsp.2, List.append_assoc]
+        rfl
+
+theorem validB_of_mem (d : Db) (hinv : Inv d) (x : LoopRow) (hx : x ∈ d.loops) (cid : Nat) (hc : x.cid = cid) :
+    LH.validB { cid := cid, loopNum := x.loopNum, category := x.category } d = true := by
+  unfold LH.validB
+  simp only []
+  have := find_loop_of_mem d hinv x hx
+  rw [hc] at this
+  rw [this]
+  simp
+
 -- ---- worlds ------------------------------------------------------------------------------------------------------------------------------
 
 open World in
@@ -1664,6 +1727,56 @@ theorem specStep_refines (w : World) (op : Op) (h : WOk w) (hin : inContract w o
       show ({ cifs := _, chs := _, lhs := _, its := _ } : AWorld) = { cifs := _, chs := _, lhs := _, its := _ }
       congr 1
       exact (absW_setCif w e.cif _).symm
+  | loops hh =>
+    simp only [specStep, step, liveH_absW]
+    cases hl : w.liveH hh with
+    | none => rfl
+    | some pr =>
+      obtain ⟨e, s⟩ := pr
+      have hg := (h.good.live (liveH_liveC hl)).db
+      obtain ⟨hdb1, hres⟩ := allLoops_spec s e.h
+      simp only [Option.map_some]
+      cases hr : allLoops s e.h with
+      | mk s1 r =>
+        rw [hr] at hdb1 hres
+        simp only [] at hdb1 hres
+        cases r with
+        | error c =>
+          simp only []
+          rw [← hres]
+          simp only [Option.some.injEq, Prod.mk.injEq, and_true]
+          show ({ cifs := _, chs := _, lhs := _, its := _ } : AWorld) = { cifs := _, chs := _, lhs := _, its := _ }
+          congr 1
+          rw [← hdb1]; exact (absW_setCif w e.cif s1).symm
+        | ok ls =>
+          simp only []
+          rw [← hres]
+          simp only []
+          -- the handles returned are valid
+          have hv : ∀ l ∈ ls, l.validB s.db = true := by
+            intro l hlm
+            have : Except.ok ls = specAllLoops (absS s.db) e.h := hres
+            unfold specAllLoops at this
+            split at this
+            · cases this
+            · simp only [Except.ok.injEq] at this
+              rw [this] at hlm
+              obtain ⟨y, hy, rfl⟩ := List.mem_map.mp hlm
+              obtain ⟨hym, hyc⟩ := List.mem_filter.mp hy
+              have hym' : y ∈ s.db.loops.map (absALoop s.db) := hym
+              obtain ⟨x, hx, rfl⟩ := List.mem_map.mp hym'
+              exact validB_of_mem s.db hg.inv x hx e.h.id (by simpa [absALoop] using hyc)
+          obtain ⟨f1, f2⟩ := foldNames_spec s.db hg ls hv (s1, []) hdb1
+          simp only [List.nil_append] at f2
+          simp only [Option.some.injEq, Prod.mk.injEq]
+          refine ⟨?_, congrArg (fun o => ({ rc := some CIF_OK, out := Out.loops o } : Result)) f2.symm⟩
+          show ({ cifs := _, chs := _, lhs := _, its := _ } : AWorld) = { cifs := _, chs := _, lhs := _, its := _ }
+          congr 1
+          have f1' : (List.foldl (fun (acc : Store × List (Option Str × Option (List Str))) l =>
+              match getNames acc.1 l with
+              | (s', .ok ns) => (s', acc.2 ++ [(l.category, some (ns.map (·.2)))])
+              | (s', .error _) => (s', acc.2 ++ [(l.category, none)])) (s1, []) ls).1.db = s.db := f1
+          rw [← f1']; exact (absW_setCif w e.cif _).symm
   | _ => cases hc
 
 end CifModel.Store
